@@ -241,6 +241,43 @@ custom("writer_dry_guards", "src/codemodder/dependency_management/dependency_man
        printer=lambda v: "[" + "; ".join(f"({k}, {'true' if b else 'false'})" for k, b in v) + "]",
        doc="the four *Writer.add_to_file: every file write is inside `if not dry_run:`")
 
+
+def _writer_catches(fn, what):
+    """is every file write of add_to_file inside a `try:` whose handler swallows the exception and returns None?"""
+    if fn is None:
+        raise Unrecognised(f"{what}.add_to_file not found")
+    res = []
+
+    def walk(node, caught):
+        for child in ast.iter_child_nodes(node):
+            c = caught
+            if isinstance(node, ast.Try) and child in node.body:
+                c = any((h.type is None or (isinstance(h.type, ast.Name) and h.type.id in ("Exception", "BaseException", "OSError", "IOError")))
+                        and h.body and _is_return_none(_flatten(h.body)[-1]) for h in node.handlers)
+            if isinstance(child, ast.Call) and _is_write_open(child):
+                res.append(c)
+            walk(child, c)
+
+    walk(fn, False)
+    if not res:
+        raise Unrecognised(f"{what}.add_to_file: no file write found")
+    return all(res)
+
+
+def _writer_catch_table(tree, repo):
+    out = []
+    for ctor, fname, cls in _WRITERS:
+        t = ast.parse((repo / "src/codemodder/dependency_management" / fname).read_text(encoding="utf-8"))
+        out.append([ctor, _writer_catches(find_def(t, f"{cls}.add_to_file"), cls)])
+    return out
+
+
+custom("writer_catch_table", "src/codemodder/dependency_management/dependency_manager.py", ["C04", "C14", "C03"],
+       "writer_catch_table", "list (skind * bool)",
+       [["SReqTxt", True], ["SToml", False], ["SSetupPy", False], ["SSetupCfg", True]], _writer_catch_table,
+       printer=lambda v: "[" + "; ".join(f"({k}, {'true' if b else 'false'})" for k, b in v) + "]",
+       doc="the four *Writer.add_to_file: the file write sits in a try block that swallows the error and returns None")
+
 # ---- whole-function shapes -----------------------------------------------------------------------------------------
 shape("run_apply_codemods", "src/codemodder/codemodder.py", ["C09", "C10", "C04", "C15"],
       "apply_codemods_shape", "apply_codemods_form", "SequentialApplyThenDeps", ["apply_codemods"],
@@ -310,6 +347,94 @@ def _prefilter_form(tree, repo):
 custom("run_prefilter", "src/codemodder/codemodder.py", ["C09"],
        "prefilter_shape", "prefilter_form", "OnceBeforeAnyRewrite", _prefilter_form,
        doc="the semgrep prefilter is computed once, before any rewrite")
+
+
+# ---- every write-capable call of the runtime sources is one of the modelled writers (REVIEW_A 14) ------------------------------
+# Model/Run.v has exactly two kinds of writes under the target: a pipeline's write of the transformed file and a manifest writer's
+# write.  This fragment scans src/codemodder (without codemods/test and scripts) and src/core_codemods for calls that can create,
+# modify or delete a file and fails closed when the set differs from the known sites below.
+_WRITE_SITES = {
+    ("src/codemodder/codemods/libcst_transformer.py", "update_code", ".write_bytes"),                     # pipeline write (libcst)
+    ("src/codemodder/codemods/regex_transformer.py", "RegexTransformerPipeline.apply", ".write_bytes"),   # pipeline write (regex)
+    ("src/codemodder/codemods/xml_transformer.py", "XMLTransformerPipeline.apply", ".write_bytes"),       # pipeline write (xml)
+    ("src/codemodder/codemods/xml_transformer.py", "XMLTransformerPipeline.apply", "TemporaryFile"),      # scratch buffer, outside the target
+    ("src/codemodder/dependency_management/pyproject_writer.py", "PyprojectWriter.add_to_file", "open(w)"),
+    ("src/codemodder/dependency_management/requirements_txt_writer.py", "RequirementsTxtWriter.add_to_file", "open(w)"),
+    ("src/codemodder/dependency_management/requirements_txt_writer.py", "RequirementsTxtWriter.add_to_file", ".writelines"),
+    ("src/codemodder/dependency_management/setup_py_writer.py", "SetupPyWriter.add_to_file", "open(w)"),
+    ("src/codemodder/dependency_management/setupcfg_writer.py", "SetupCfgWriter.add_to_file", "open(w)"),
+    ("src/codemodder/dependency_management/setupcfg_writer.py", "SetupCfgWriter.add_to_file", ".writelines"),
+    ("src/codemodder/codetf.py", "CodeTF.write_report", "open(w)"),                                       # the report (--output), C20's
+    ("src/codemodder/codemods/semgrep.py", "_create_temp_yaml_file", "tempfile.mkstemp"),                 # rule file in the temp dir
+    ("src/codemodder/codemods/semgrep.py", "_create_temp_yaml_file", "os.fdopen"),
+    ("src/codemodder/semgrep.py", "run", "NamedTemporaryFile"),                                           # semgrep's SARIF output, temp dir
+    ("src/codemodder/semgrep.py", "run", "subprocess.run"),                                               # the semgrep scan (read-only on the target)
+}
+_W_ATTRS = {"write_text", "write_bytes", "unlink", "rename", "rmdir", "mkdir", "touch", "symlink_to", "hardlink_to", "chmod", "writelines", "truncate"}
+_W_MODS = {"os": {"remove", "unlink", "rename", "replace", "rmdir", "mkdir", "makedirs", "symlink", "link", "chmod", "truncate", "open", "fdopen", "system", "popen"},
+           "shutil": None, "tempfile": None, "subprocess": {"run", "call", "check_call", "check_output", "Popen"}}
+_W_NAMES = {"mkstemp", "NamedTemporaryFile", "TemporaryFile", "mkdtemp", "rmtree", "copy", "copyfile", "move", "copytree"}
+
+
+def _mode_writes(call, skip_first):
+    args = list(call.args[(1 if skip_first else 0):(2 if skip_first else 1)]) + [k.value for k in call.keywords if k.arg == "mode"]
+    return any(isinstance(a, ast.Constant) and isinstance(a.value, str) and any(c in a.value for c in "wax+") for a in args)
+
+
+def _write_calls(tree):
+    out = []
+
+    def walk(node, qual):
+        for ch in ast.iter_child_nodes(node):
+            q = qual
+            if isinstance(ch, (ast.FunctionDef, ast.AsyncFunctionDef, ast.ClassDef)):
+                q = (qual + "." + ch.name) if qual else ch.name
+            if isinstance(ch, ast.Call):
+                fn, name = ch.func, None
+                if isinstance(fn, ast.Name):
+                    if fn.id == "open" and _mode_writes(ch, True):
+                        name = "open(w)"
+                    elif fn.id in _W_NAMES:
+                        name = fn.id
+                elif isinstance(fn, ast.Attribute):
+                    if fn.attr == "open" and _mode_writes(ch, False):
+                        name = ".open(w)"
+                    elif fn.attr in _W_ATTRS:
+                        name = "." + fn.attr
+                    elif fn.attr == "replace" and len(ch.args) == 1 and not ch.keywords:      # Path.replace(target); str.replace has two arguments
+                        name = ".replace"
+                    if isinstance(fn.value, ast.Name) and fn.value.id in _W_MODS and (_W_MODS[fn.value.id] is None or fn.attr in _W_MODS[fn.value.id]):
+                        name = fn.value.id + "." + fn.attr
+                if name:
+                    out.append((qual or "<module>", name))
+            walk(ch, q)
+
+    walk(tree, "")
+    return out
+
+
+def _write_sites(tree, repo):
+    found = set()
+    for base in ("src/codemodder", "src/core_codemods"):
+        for f in sorted((repo / base).rglob("*.py")):
+            rel = f.relative_to(repo)
+            if "test" in rel.parts or "scripts" in rel.parts or "docs" in rel.parts:
+                continue
+            try:
+                t = ast.parse(f.read_text(encoding="utf-8"))
+            except (OSError, SyntaxError) as e:
+                raise Unrecognised(f"cannot parse {rel}: {e}")
+            for qual, name in _write_calls(t):
+                found.add((str(rel), qual, name))
+    extra, missing = sorted(found - _WRITE_SITES), sorted(_WRITE_SITES - found)
+    if extra or missing:
+        raise Unrecognised(f"write-capable calls differ from the modelled writers: new {extra}; gone {missing}")
+    return "OnlyKnownWriteSites"
+
+
+custom("run_write_sites", "src/codemodder/codemods/libcst_transformer.py", ["C04", "C05", "C10", "C03"],
+       "write_sites_shape", "write_sites_form", "OnlyKnownWriteSites", _write_sites,
+       doc="every call that can create/modify/delete a file in src/codemodder + src/core_codemods is a modelled writer (or a temp-dir/report write)")
 
 custom("run_tables_v", "src/codemodder/codemods/libcst_transformer.py", _RUN_PROPS,
        "run_tables_v", "run_tables", "tables", lambda tree, repo: "tables",
